@@ -8,7 +8,7 @@ suspension point (= every crash point of the task) and a backend fault possible 
 import z3
 
 from contracts import c02_paths, c10_limits, c11_ports, server_units  # noqa: F401
-from contracts.server_units import codes, guard_c03
+from contracts.server_units import codes, guard_c03, guard_c04
 from pyvc.core import SV, PathEnd, PyRaise, Unsupported, fresh
 from pyvc.models_aio import TaskModel
 from pyvc.session import Reader, Writer, b_and, b_implies, b_not, b_or, tt
@@ -53,6 +53,8 @@ def make_worker_setup(verb, meth, mode):
         it.hooks.setdefault("spec_helpers", {}).update(c02_paths.spec_helpers())
         sess = Session(u, mode=mode, ports=False, path_theory=False)
         sess.guards.append(("C03", guard_c03))
+        sess.guards.append(("C04", guard_c04))
+        sess.verb = verb
         u.sess = sess
         spawned = []
         it.hooks["on_spawn"] = lambda i, t: spawned.append(t)
@@ -135,7 +137,7 @@ def worker_exit(S, outcome):
 
 def define_worker_units():
     for verb, (meth, wq) in WORKERS.items():
-        c = contract(SERVER, f"Server.{meth}", props=["C12", "C13", "C14", "C05", "C16"], name=f"{wq.split('.')[-1]}@{verb}")
+        c = contract(SERVER, f"Server.{meth}", props=["C12", "C13", "C14", "C05", "C16", "C04", "C03"], name=f"{wq.split('.')[-1]}@{verb}")
         c.setup = make_worker_setup(verb, meth, "SEQ")
         c.uses = [(SERVER, "Server.get_paths#opaque"), (SERVER, "User.get_permissions#summary")]
         c.cancellable = True
